@@ -84,6 +84,23 @@ def check(pid, tier):
                 inductive_ctis.append(ob.name)
                 continue
             was = ledger.get(ob.name)
+            # replay the solver's counterexample on the real code where the inputs are scalars
+            snippet, concrete, confirmed = None, None, False
+            try:
+                from deductive.replayers import replay_for
+                rp = replay_for(ob.function, ob.model if isinstance(ob.model, dict) else None)
+                if rp is not None:
+                    snippet, concrete = rp
+                    rep, out = core.run_snippet(snippet)
+                    confirmed = rep is True
+            except Exception:
+                pass
+            if confirmed:
+                failures.append(dict(clause=ob.clause, site=ob.function, wclass='obligation ' + ob.name, witness=concrete,
+                                     detail='obligation refuted by %s; the counterexample replays on the real code: %s'
+                                     % (ob.backend, ob.detail), snippet=snippet, obligation=ob.name, solver_output=ob.model,
+                                     confirmed=True, origin='deductive'))
+                continue
             f = dict(clause=ob.clause, site=ob.function, wclass='obligation ' + ob.name,
                      witness=ob.model, detail='obligation refuted by %s: %s' % (ob.backend, ob.detail),
                      snippet=None, obligation=ob.name, solver_output=ob.model, confirmed=False,
